@@ -33,7 +33,7 @@ def run(ctx):
     if ctx.replay:
         return ac.replay(ctx, 'range', ['zero'])
     # (1) design theorems on the exhaustive enumeration (algorithmic sub-specs = declarative Witness, results valid)
-    ac.model_check(ctx, ["MC_Algo_quick.cfg"] if ctx.quick else ["MC_Algo.cfg", "MC_Algo_p3.cfg"], workers=ac.par(ctx) * 2)
+    ac.model_check(ctx, ["MC_AlgoW_quick.cfg"] if ctx.quick else ["MC_AlgoW.cfg", "MC_AlgoW_p3.cfg"], workers=ac.par(ctx) * 2)
     h = ac.harness(ctx)
     # (2) E: exhaustive cases replayed in every representation / slab / withPos variant
     cfgs = ["Gen_Algo_quick.cfg", "Gen_Algo_quick4.cfg"] if ctx.quick else (["Gen_Algo_t5a%d.cfg" % a for a in range(1, 7)] +
